@@ -1,11 +1,338 @@
-// Package c03 is the correspondence/oracle harness for property C03.
+// Package c03: extraction is deterministic and free of cross-call interference.
+//
+// Built with -race by the check driver; data races are read back from the
+// detector's log by the driver and reported with both stacks as the replay.
 package c03
 
-import "verifharness/hx"
+import (
+	"crypto/sha256"
+	"fmt"
+	"os"
+	"path/filepath"
+	"sort"
+	"strings"
+	"sync"
+
+	"github.com/tsawler/tabula"
+	"github.com/tsawler/tabula/contentstream"
+	"github.com/tsawler/tabula/core"
+	"github.com/tsawler/tabula/text"
+
+	"verifharness/c20"
+	"verifharness/hx"
+)
 
 func init() { hx.Register("C03", Run, Replay) }
 
-// Run is not built yet for this property.
-func Run(c *hx.Ctx) { c.Note("C03: harness not built") }
+// ---- parser sessions ---------------------------------------------------------------
 
-func Replay(c *hx.Ctx, kase map[string]interface{}) {}
+var operators = []string{"q", "Q", "m", "l", "h", "S", "f", "n", "W", "B", "b", "s", "c", "v", "y", "g", "G", "k", "K", "w", "j", "J", "M", "d", "i"}
+
+type sessCase struct {
+	Calls  []string `json:"calls"`  // content-stream programs, parsed one after the other
+	Poison []string `json:"poison"` // raw inputs parsed before the last call (may fail / end mid-operand)
+}
+
+func showOps(ops []contentstream.Operation) string {
+	var out []string
+	for _, o := range ops {
+		var xs []string
+		for _, a := range o.Operands {
+			switch v := a.(type) {
+			case core.Int:
+				xs = append(xs, fmt.Sprint(int64(v)))
+			default:
+				xs = append(xs, fmt.Sprintf("?%T", a))
+			}
+		}
+		out = append(out, fmt.Sprintf("%d:%s", o.Operator[0], strings.Join(xs, ",")))
+	}
+	return "[" + strings.Join(out, ";") + "]"
+}
+
+func genProgram(r *hx.Rng, endMid bool) (src string, wire string) {
+	var s, w []string
+	n := r.Range(0, 8)
+	for i := 0; i < n; i++ {
+		if r.Chance(3, 5) {
+			v := r.Range(-50, 500)
+			s = append(s, fmt.Sprint(v))
+			w = append(w, fmt.Sprintf("n%d", v))
+		} else {
+			op := hx.Pick(r, operators)
+			s = append(s, op)
+			w = append(w, fmt.Sprintf("o%d", op[0]))
+		}
+	}
+	if endMid {
+		for k := r.Range(1, 3); k > 0; k-- {
+			v := r.Range(0, 9)
+			s = append(s, fmt.Sprint(v))
+			w = append(w, fmt.Sprintf("n%d", v))
+		}
+	}
+	if len(w) == 0 {
+		return "", "-"
+	}
+	return strings.Join(s, " "), strings.Join(w, ",")
+}
+
+func runSession(c *hx.Ctx, idx int) {
+	r := hx.NewRng(c.Seed).Fork(uint64(idx))
+	var k sessCase
+	var wires []string
+	ncalls := r.Range(1, 4)
+	for i := 0; i < ncalls; i++ {
+		src, wire := genProgram(r, i < ncalls-1 && r.Chance(2, 3))
+		k.Calls = append(k.Calls, src)
+		wires = append(wires, wire)
+	}
+	for p := r.Intn(3); p > 0; p-- {
+		k.Poison = append(k.Poison, hx.Pick(r, []string{"1 2 3", "(unterminated", "<< /A 1", "[ 1 2", "7 8 9 10 11", "<4", "/N 5 6", "1 2 ) 3", "BT 1 2"}))
+	}
+	var alone, inSession string
+	c.Guard("C03/session", k, 10, func() {
+		last := k.Calls[len(k.Calls)-1]
+		ops, err := contentstream.NewParser([]byte(last)).Parse()
+		alone = showOps(ops)
+		if err != nil {
+			alone = "err"
+		}
+		for _, call := range k.Calls[:len(k.Calls)-1] {
+			contentstream.NewParser([]byte(call)).Parse()
+		}
+		for _, p := range k.Poison {
+			contentstream.NewParser([]byte(p)).Parse()
+		}
+		ops, err = contentstream.NewParser([]byte(last)).Parse()
+		inSession = showOps(ops)
+		if err != nil {
+			inSession = "err"
+		}
+	})
+	c.Check("C03/parse-depends-on-history", alone == inSession, k, func() string {
+		return fmt.Sprintf("parse of %q alone = %s, after history %q + %q = %s", k.Calls[len(k.Calls)-1], alone, k.Calls[:len(k.Calls)-1], k.Poison, inSession)
+	})
+	c.Op("c03.sess "+strings.Join(wires, " "), inSession)
+	c.Count("session")
+	c.Case(fmt.Sprint(k), inSession != "[]")
+}
+
+// ---- font registration over a map --------------------------------------------------
+
+type fontCase struct {
+	Names []string `json:"names"`
+}
+
+func runFonts(c *hx.Ctx, idx int) {
+	r := hx.NewRng(c.Seed ^ 0xf0f0).Fork(uint64(idx))
+	pool := []string{"F1", "F2", "F", "/F", "TT0", "/TT0", "C2_0", "/F1", "R9", "Helv"}
+	n := r.Range(1, 5)
+	hx.Shuffle(r, pool)
+	names := append([]string(nil), pool[:n]...)
+	sort.Strings(names)
+	k := fontCase{Names: names}
+	fonts := core.Dict{}
+	for i, nm := range names {
+		fonts[nm] = core.Dict{"Type": core.Name("Font"), "Subtype": core.Name("Type1"), "BaseFont": core.Name(fmt.Sprintf("Base%d", i+1)), "Encoding": core.Name("WinAnsiEncoding")}
+	}
+	res := core.Dict{"Font": fonts}
+	keys := map[string]bool{}
+	for _, nm := range names {
+		keys[nm] = true
+		keys["/"+nm] = true
+	}
+	ks := hx.SortedKeys(keys)
+	results := map[string]int{}
+	var first string
+	c.Guard("C03/fonts", k, 10, func() {
+		for rep := 0; rep < 24; rep++ {
+			e := text.NewExtractor()
+			e.RegisterFontsFromResources(res, func(ref core.IndirectRef) (core.Object, error) { return nil, fmt.Errorf("no refs") })
+			got := e.GetFonts()
+			var out []string
+			for _, key := range ks {
+				if f, ok := got[key]; ok && f != nil {
+					out = append(out, strings.TrimPrefix(f.BaseFont, "Base"))
+				} else {
+					out = append(out, "-")
+				}
+			}
+			s := strings.Join(out, ",")
+			if rep == 0 {
+				first = s
+			}
+			results[s]++
+		}
+	})
+	aliasing := false
+	for _, a := range names {
+		for _, b := range names {
+			if a != b && (a == "/"+b) {
+				aliasing = true
+			}
+		}
+	}
+	c.Check("C03/font-registration-order-dependent", len(results) == 1, k, func() string {
+		return fmt.Sprintf("24 registrations of the same font dictionary %v gave %d different font maps: %v", names, len(results), results)
+	})
+	{
+		var es, hk []string
+		for i, nm := range names {
+			es = append(es, fmt.Sprintf("%s=%d", hx.HexS(nm), i+1))
+		}
+		for _, key := range ks {
+			hk = append(hk, hx.HexS(key))
+		}
+		c.Op("c03.fonts "+strings.Join(es, ",")+" "+strings.Join(hk, ","), first)
+	}
+	if aliasing {
+		c.Count("fonts-aliasing")
+	}
+	c.Count("fonts")
+	c.Case(fmt.Sprint(names), true)
+}
+
+// ---- whole extractions: repeat, history, goroutines ---------------------------------
+
+type docCase struct {
+	Seed    uint64   `json:"seed"`
+	Index   int      `json:"index"`
+	Formats []string `json:"formats"`
+	Mode    string   `json:"mode"`
+}
+
+// digest runs the observed operations on one file and returns a digest per operation.
+func digest(path string) map[string]string {
+	out := map[string]string{}
+	h := func(s string) string { x := sha256.Sum256([]byte(s)); return fmt.Sprintf("%x", x[:8]) }
+	t, _, err := tabula.Open(path).Text()
+	out["Text"] = h(t) + errs(err)
+	m, _, err := tabula.Open(path).ToMarkdown()
+	out["ToMarkdown"] = h(m) + errs(err)
+	ch, _, err := tabula.Open(path).Chunks()
+	if err == nil && ch != nil {
+		j, e1 := ch.ToJSONL()
+		cs, e2 := ch.ToCSV()
+		out["Chunks.ToJSONL"] = h(j) + errs(e1)
+		out["Chunks.ToCSV"] = h(cs) + errs(e2)
+	} else {
+		out["Chunks.ToJSONL"] = errs(err)
+	}
+	return out
+}
+
+func errs(err error) string {
+	if err != nil {
+		return "!err"
+	}
+	return ""
+}
+
+func runDocs(c *hx.Ctx, idx int) {
+	r := hx.NewRng(c.Seed ^ 0xd0c5).Fork(uint64(idx))
+	k := docCase{Seed: c.Seed, Index: idx}
+	ndocs := r.Range(2, 6)
+	var paths []string
+	for i := 0; i < ndocs; i++ {
+		f := hx.Pick(r, c20.SevenFormats)
+		k.Formats = append(k.Formats, f)
+		p := filepath.Join(c.OutDir, fmt.Sprintf("c03-%d-%d%s", idx, i, c20.ExtOf(f)))
+		os.WriteFile(p, c20.GenDocument(r, f, fmt.Sprintf("tok%dx%d", idx, i)), 0o644)
+		paths = append(paths, p)
+	}
+	bad := filepath.Join(c.OutDir, fmt.Sprintf("c03-%d-bad.pdf", idx))
+	os.WriteFile(bad, []byte("%PDF-1.4\n1 0 obj\n<< /Length 5 >>\nstream\n1 2 3"), 0o644)
+	defer func() {
+		for _, p := range append(paths, bad) {
+			os.Remove(p)
+		}
+	}()
+	base := make([]map[string]string, ndocs)
+	k.Mode = "alone"
+	if !c.Guard("C03/docs", k, 60, func() {
+		for i, p := range paths {
+			base[i] = digest(p)
+		}
+	}) {
+		return
+	}
+	cmp := func(mode string, i int, got map[string]string) {
+		for op, want := range base[i] {
+			kk := k
+			kk.Mode = mode
+			c.Check("C03/"+mode+"-differs", got[op] == want, kk, func() string {
+				return fmt.Sprintf("%s of document %d (%s) %s: digest %s, alone %s", op, i, k.Formats[i], mode, got[op], want)
+			})
+		}
+	}
+	// repeated runs (map iteration order) and after other extractions incl. a failing one
+	c.Guard("C03/docs", k, 120, func() {
+		for rep := 0; rep < 3; rep++ {
+			for i, p := range paths {
+				cmp("repeat", i, digest(p))
+			}
+		}
+		order := r.Intn(ndocs)
+		tabula.Open(bad).Text()
+		contentstream.NewParser([]byte("1 2 3 4 5")).Parse()
+		for j := 0; j < ndocs; j++ {
+			i := (order + j) % ndocs
+			tabula.Open(bad).Fragments()
+			cmp("after-history", i, digest(paths[i]))
+		}
+	})
+	// concurrently on g goroutines
+	g := r.Range(2, 8)
+	var wg sync.WaitGroup
+	results := make([]map[string]string, g*2)
+	which := make([]int, g*2)
+	c.Guard("C03/docs", k, 180, func() {
+		for w := 0; w < g*2; w++ {
+			which[w] = (w + idx) % ndocs
+			wg.Add(1)
+			go func(w int) {
+				defer wg.Done()
+				if w%5 == 4 {
+					tabula.Open(bad).Text()
+				}
+				results[w] = digest(paths[which[w]])
+			}(w)
+		}
+		wg.Wait()
+	})
+	for w := range results {
+		if results[w] != nil {
+			cmp("concurrent", which[w], results[w])
+		}
+	}
+	c.Count(fmt.Sprintf("docs=%d goroutines=%d", ndocs, g*2))
+	c.Case(fmt.Sprint(k), true)
+}
+
+func Run(c *hx.Ctx) {
+	c.Rep.Rule = "parser sessions (1-4 operator programs, earlier ones ending mid-operand, plus failing raw inputs) compared with the parse alone; font dictionaries (1-5 names incl. aliasing pairs F and /F) registered 24 times each; 2-6 documents of the seven formats extracted alone, repeatedly, after other and failing extractions, and on 4-16 goroutines at once under the race detector, comparing digests of Text/ToMarkdown/Chunks().ToJSONL()/ToCSV(); non-trivial = session with at least one operation / every font and document case"
+	for i := 0; i < c.N(1500, 40000); i++ {
+		runSession(c, i)
+	}
+	for i := 0; i < c.N(300, 5000); i++ {
+		runFonts(c, i)
+	}
+	for i := 0; i < c.N(25, 400); i++ {
+		runDocs(c, i)
+	}
+}
+
+func Replay(c *hx.Ctx, m map[string]interface{}) {
+	if idx, ok := m["index"].(float64); ok {
+		runDocs(c, int(idx))
+		return
+	}
+	c.Note("session/font cases replay from (seed, index) of the run; see the case for the programs / names")
+	for i := 0; i < 1500; i++ {
+		runSession(c, i)
+	}
+	for i := 0; i < 300; i++ {
+		runFonts(c, i)
+	}
+}
